@@ -666,9 +666,9 @@ pub fn check_main(def: &PropDef, tier: Tier) -> i32 {
                             continue;
                         }
                         let case: Value = std::fs::read_to_string(&cf).ok().and_then(|t| serde_json::from_str(&t).ok()).unwrap_or(Value::Null);
-                        let outcome = solo_process(def.id, &cf, 60);
+                        let outcome = solo_process(def.id, &cf, (2.0 * def.hang_cpu_s).max(60.0) as u64);
                         let (key, detail) = match outcome {
-                            SoloOutcome::Hang => ("hang|cpu_budget".to_string(), format!("case {} of worker {} exceeded 60 CPU-seconds alone (normal cost is milliseconds)", k, c.idx)),
+                            SoloOutcome::Hang => ("hang|cpu_budget".to_string(), format!("case {} of worker {} exceeded {} CPU-seconds alone (normal cost is far below)", k, c.idx, (2.0 * def.hang_cpu_s).max(60.0) as u64)),
                             SoloOutcome::Abort(m) => (format!("abort|{}", m), format!("case {} of worker {} killed the process: {}", k, c.idx, m)),
                             SoloOutcome::Fail(key, d) => (key, d),
                             SoloOutcome::Known(key) => {
